@@ -81,7 +81,15 @@ def work(args):
         as_float = R.random() < 0.3
         inp = [[(float(x) if as_float else x) for x in r] for r in rows]
         try:
-            s = core.guarded(solve, copy.deepcopy(inp))
+            arg = copy.deepcopy(inp)
+            if R.random() < 0.5:
+                # equal rows given as ONE list object (m = [row] * 2 is an ordinary way to write such a system): the solver must not
+                # let the elimination of one row rewrite another through the alias
+                for i_ in range(len(arg)):
+                    for j_ in range(i_):
+                        if arg[j_] == arg[i_]:
+                            arg[i_] = arg[j_]
+            s = core.guarded(solve, arg)
             if isinstance(s, tuple) and s and s[0] == 'exc':
                 raise RuntimeError('solve did not return within the time limit (twice)')
             truthy = bool(s)
